@@ -183,3 +183,17 @@ pub enum Generic<'s, T> {
 // ---- no patterns at all ----
 #[derive(Logos, Debug, PartialEq)]
 pub enum Empty {}
+
+// ---- tokens with a looping body and an optional, non-extendable suffix; a keyword overlapping an identifier ----
+#[derive(Logos, Debug, PartialEq)]
+#[logos(skip r"[ \t]+")]
+pub enum OptionalSuffix {
+    #[regex("[0-9]+f?")]
+    Num,
+    #[regex("[a-z]+!?")]
+    Ident,
+    #[token("fn")]
+    Fn,
+    #[regex("x+y?", priority = 20)]
+    Xy,
+}
